@@ -90,6 +90,7 @@ type APIRec struct {
 	NG    int       `json:"ng"`
 	Names [][]int   `json:"names"` // group names (runes) ...
 	Nums  []int     `json:"nums"`  // ... and their numbers
+	GNums []int     `json:"gnums"` // GetGroupNumbers(): the number of capture slot k (k = 0 is the match)
 	Last  int       `json:"last"`  // number of the last group in Groups() order ($+)
 	Cases []APICase `json:"cases"`
 }
@@ -310,7 +311,7 @@ func (g *Gen) corruptBytes(b []byte) []byte {
 	return out
 }
 
-var replPool = []string{"$&", "<$0>", "[$1]", "$2$1", "${1}x", "$$", "$`|", "$'|", "$+", "$_", "${n}", "${nope}", "$9", "$", "a$", "$1$", "${1", "$ {1}", "$10", "${01}", "x", "", "$$1", "$&$&", "é$1😀", "${m}-$2"}
+var replPool = []string{"$&", "<$0>", "[$1]", "$2$1", "${1}x", "$$", "$`|", "$'|", "$+", "$_", "${n}", "${nope}", "$9", "$", "a$", "$1$", "${1", "$ {1}", "$10", "${01}", "x", "", "$$1", "$&$&", "é$1😀", "${m}-$2", "$3|", "${7}", "$`$3", "$'$12", "[$+]", "$_$2"}
 
 func init() {
 	commands["record-api"] = func(args []string) int {
@@ -321,7 +322,7 @@ func init() {
 		rtl := fs.String("rtl", "no", "no|yes|both")
 		out := fs.String("o", "-", "output file")
 		stream := fs.Uint64("stream", 1, "PRNG stream")
-		profile := fs.String("profile", "fragment", "fragment (exact oracle applies) | wide (nullable loops, \\G, balancing groups: relational only)")
+		profile := fs.String("profile", "fragment", "fragment (exact oracle applies) | wide (nullable loops, \\G, balancing groups: relational only) | balancing (wide, every pattern has a group popped by a balancing group)")
 		nrepl := fs.Int("repl", 2, "replacement strings per input")
 		invalid := fs.Float64("invalid", 0.3, "probability of injecting invalid UTF-8 into an input")
 		caseFile := fs.String("case", "", "replay: JSON {p,o,dia,rtl,exact,b,repls}")
@@ -345,6 +346,7 @@ func init() {
 			rec := APIRec{ID: id, P: p, O: o, Dia: dia, RTL: isRTL, Text: text, Exact: exact, Cases: []APICase{}, Names: [][]int{}, Nums: []int{}}
 			nums := re.GetGroupNumbers()
 			rec.NG = len(nums) - 1
+			rec.GNums = nums
 			for _, nm := range re.GetGroupNames() {
 				rec.Names = append(rec.Names, runesToInts([]rune(nm)))
 				rec.Nums = append(rec.Nums, re.GroupNumberFromName(nm))
@@ -397,8 +399,8 @@ func init() {
 
 		cfg := cfgC01()
 		exact := true
-		if *profile == "wide" {
-			cfg.Nullable, cfg.NestedRep, cfg.G, cfg.Balancing = true, true, true, true
+		if *profile == "wide" || *profile == "balancing" {
+			cfg.Nullable, cfg.NestedRep, cfg.G, cfg.Balancing, cfg.NumNames = true, true, true, true, true
 			exact = false
 		}
 		g := &Gen{r: newRand(seedFromEnv(), *stream), c: cfg}
@@ -413,6 +415,9 @@ func init() {
 				dia = "re2"
 			}
 			isRTL := *rtl == "yes" || (*rtl == "both" && g.chance(0.5))
+			if *profile == "balancing" {
+				t = g.BalPattern(isRTL)
+			}
 			g.resolveRefs(t, has(o, "n"))
 			p := Flatten(t)
 			text := PrintPat(p, PrintOpts{X: has(o, "x"), RE2: dia == "re2", XNoise: g.pick(3)})
